@@ -1303,7 +1303,22 @@ class Evaluator:
             if isinstance(inner, Lst) and (inner.pappends or getattr(inner, "comp", None)):
                 j = Sym("j%d" % loopid, ("loopvar", "int"))
                 elem = ("enum-list", j, self.lib.ListElem(inner, j))
-        if isinstance(elem, tuple) and elem and elem[0] == "enum-list":
+        if isinstance(st.iter, ast.Call) and isinstance(st.iter.func, ast.Name) and st.iter.func.id == "zip" and not st.iter.keywords \
+                and isinstance(st.target, (ast.Tuple, ast.List)) and len(st.target.elts) == len(st.iter.args) \
+                and all(isinstance(t_, ast.Name) for t_ in st.target.elts):
+            # zip over lists built in a parametric loop: each such element stays attached to its list (`for sols, c in zip(s, s_min): sols.append(...)`)
+            try:
+                inners = [self.eval(a_, fr) for a_ in st.iter.args]
+            except Exception:  # noqa: BLE001
+                inners = None
+            if inners is not None and any(isinstance(x_, Lst) and (x_.pappends or getattr(x_, "comp", None)) for x_ in inners):
+                j = Sym("j%d" % loopid, ("loopvar", "int"))
+                for t_, x_ in zip(st.target.elts, inners):
+                    self.assign(t_, self.elem_of(x_, j) if not (isinstance(x_, V) and not isinstance(x_, Tup)) else mk_app("getitem", [x_, j]), fr)
+                elem = ("zip-list", j)
+        if isinstance(elem, tuple) and elem and elem[0] == "zip-list":
+            elem = elem[1]
+        elif isinstance(elem, tuple) and elem and elem[0] == "enum-list":
             _tag, j, le = elem
             if isinstance(st.target, (ast.Tuple, ast.List)) and len(st.target.elts) == 2:
                 self.assign(st.target.elts[0], j, fr)
